@@ -137,8 +137,16 @@ impl Prop for C08 {
             return Verdict::Skip("no-section");
         }
         let plain_lines = case.render();
-        crate::gen::config::keep_headers_intact(&mut cfg, &plain_lines);
         let mode = t.weighted(&[5, 4]);
+        // part 1 compares two runs and does not read the fragment back: hunk headers longer than
+        // the maximum line length (which delta exempts from truncation) stay in scope there
+        let long_hh = mode == 0;
+        crate::gen::config::keep_headers_intact_except(&mut cfg, &plain_lines, long_hh);
+        if long_hh {
+            if let Some(m) = cfg.get("max-line-length").and_then(|v| v.parse::<usize>().ok()) {
+                ctx.class_if(m > 0 && plain_lines.iter().any(|l| matches!(l.role, Role::HunkHeader { .. }) && l.text.len() > m), "hunk-header-longer-than-max-line-length");
+            }
+        }
         let plain = lines_to_bytes(&plain_lines, true);
         if mode == 0 {
             // ---- part 1 (+3): git's default colouring is ignored
